@@ -553,8 +553,8 @@ impl Property for C10 {
     }
     fn budget(&self, tier: Tier) -> (u32, usize) {
         match tier {
-            Tier::Quick => (60_000, 8),
-            Tier::Thorough => (1_000_000, 16),
+            Tier::Quick => (100_000, 8),
+            Tier::Thorough => (3_000_000, 16),
         }
     }
     fn run(&self, case: &CacheCase) -> Report {
